@@ -14,11 +14,11 @@ import (
 type baseKind int
 
 const (
-	baseNil    baseKind = iota // nil slice: append always allocates
-	baseExact                  // cap == len provable (literal, make without cap, full slice expr)
-	baseSpare                  // freshly allocated in this activation, may have spare capacity
-	baseChain                  // result of an earlier append of the same chain
-	baseForeign                // loaded from an object the function does not own
+	baseNil     baseKind = iota // nil slice: append always allocates
+	baseExact                   // cap == len provable (literal, make without cap, full slice expr)
+	baseSpare                   // freshly allocated in this activation, may have spare capacity
+	baseChain                   // result of an earlier append of the same chain
+	baseForeign                 // loaded from an object the function does not own
 )
 
 func (k baseKind) String() string {
